@@ -165,7 +165,9 @@ empty @is_you(string s) { int k = 9; byte[] keep = ['k', 'p']; write(s); write('
     for n in lens:
         text = ''.join(chr(33 + (i * 7) % 90) for i in range(n))
         items.append(runner.Item(('wstr', n), strprog, [text], s=80, meta={'family': 'write_string'}))
-    items.append(runner.Item(('wstr', 'long_lit'), 'empty @is_you() { write("%s\\n%s\\"%s\\\\%s\\x01%s"); writeln("%s\\t"); write("%s\\n"); }' % ('a' * 70, 'b' * 69, 'c' * 70, 'd' * 68, 'e' * 30, 'f' * 71, 'g' * 143), [], s=80, meta={'family': 'write_string'}))
+    for k, (col, e) in enumerate([(70, '\\n'), (71, '\\"'), (70, '\\\\'), (69, '\\x01'), (71, '\\t'), (142, '\\n')]):
+        items.append(runner.Item(('wstr', 'long_lit', k), 'empty @is_you() { int keep = 7; write("%s%stail"); write(keep); }' % ('a' * col, e), [], s=80,
+                                 meta={'family': 'write_long_string'}))
     items.append(runner.Item(('wstr', 'utf8'), strprog, ['hé 世界 \U0001F30E'], s=80, meta={'family': 'write_string'}))
     arrprog = '''empty show(const byte[] c, byte[] m) { write(c); m[0] = 'Z'; writeln(c); }
 empty @is_you(byte[] a) { int k = 4; write(a); write('|'); writeln(a); show(a, a); byte[] al = a; al[0] = 'Y'; write(a); write(k); }'''
